@@ -159,4 +159,4 @@ def run(r):
                          "why": "the implementation's coercion outcome or shifted line differs from the model the theorems are about"}, found_input=owners[b]["kind"] == "first_line")
         r.cov["compared_in_coq"] = len(lits)
     r.cov["explanation"] = ("The data equality with dis is decided by running the real dis of each host; the theorems cover the glue (coercion chain for all objects, first_line) and C02-C05/C09/C17 the decoders. "
-                            "CACHE pseudo-instructions are left out of the comparison (dis hides them by default; 3.13 has none). stack_effect is C15. Known 3.13-only differences D40, D41 are listed.")
+                            "CACHE pseudo-instructions are left out of the comparison (dis hides them by default; 3.13 has none). stack_effect is C15. The one known difference left is D40 (3.13's dis marks exception-range boundaries as jump targets).")
